@@ -19,9 +19,11 @@ ASSUMPTIONS = ["faults are synchronous exceptions raised by user callables (the 
                "'FailedIntegration carrying the cause' or 'completed consistently'"]
 EXHAUSTIVE = {"quick": True, "thorough": True}
 FLOORS = {"quick": {"crash_points": 1500, "faults_fired": 1500, "resumes_checked": 1400, "resets_checked": 1400, "site_stage": 300, "site_event": 200,
-                    "site_callback": 30, "site_end_slope": 20, "site_fd_jacobian": 30, "site_newton": 30, "keyboard_interrupts": 100},
+                    "site_callback": 30, "site_end_slope": 20, "site_fd_jacobian": 30, "site_newton": 30, "keyboard_interrupts": 100,
+                    "resume_step_replay_steps": 1500, "faults_inside_a_retry_of_a_rejected_step": 100},
           "thorough": {"crash_points": 12000, "faults_fired": 12000, "resumes_checked": 11000, "resets_checked": 11000, "site_stage": 1100, "site_event": 2000,
-                       "site_callback": 300, "site_end_slope": 200, "site_fd_jacobian": 300, "site_newton": 300, "keyboard_interrupts": 800, "double_faults": 500}}
+                       "site_callback": 300, "site_end_slope": 200, "site_fd_jacobian": 300, "site_newton": 300, "keyboard_interrupts": 800, "double_faults": 500,
+                       "resume_step_replay_steps": 10000, "faults_inside_a_retry_of_a_rejected_step": 800}}
 CASE_TIMEOUT = 1500
 CHUNK = 24
 
@@ -51,6 +53,12 @@ def configs(tier):
         for d in (1, -1):
             for dense in ((True, False) if tier == "thorough" else ((True,) if d > 0 else (False,))):
                 out.append(dict(b, direction=d, dense=dense, events=True))
+    # a callback inflates dt after every step, so that every step but the first begins with a rejected attempt: crash points inside the
+    # retries of rejected, non-first steps (where per-step caches of the integrator are in their most fragile state)
+    for b in ([dict(method="RK45CKSolver", rich=0, nsteps=5, tol=1e-4), dict(method="DOPRI45", rich=0, nsteps=5, tol=1e-4)] +
+              ([dict(method="RadauIIA5", rich=0, nsteps=3, tol=1e-3), dict(method="RK8713MSolver", rich=0, nsteps=4, tol=1e-5)] if tier == "thorough" else [])):
+        for d, dense in (((1, True), (-1, False)) if tier == "quick" else ((1, True), (1, False), (-1, True), (-1, False))):
+            out.append(dict(b, direction=d, dense=dense, events=(tier == "thorough"), inflate=6.0))
     if tier == "quick":
         out.append(dict(method="MidpointSolver", rich=3, nsteps=3, tol=1e-3, direction=1, dense=True, events=True))
         out.append(dict(method="RK45CKSolver", rich=0, nsteps=6, tol=1e-4, direction=-1, dense=True, events=True))
@@ -178,6 +186,8 @@ def build(cfg, shim):
 
     def cb(s):
         shim.tick("callback")
+        if cfg.get("inflate"):
+            s.dt = s.dt * cfg["inflate"]
     return system, evs, [cb], y0, t0, tf, info, base
 
 
@@ -224,8 +234,19 @@ def run_case(spec):
         system, evs, cbs, y0, t0, tf, info, base = build(cfg, shim)
         y0c = y0.copy()
         exc = FAULTS[fname]("fault@%d" % k)
+        slog = None
+        if not cfg["rich"]:
+            from vf.instrument import StepLog
+            slog = StepLog(system.integrator)
+            cbs = list(cbs) + [lambda s_, _l=slog: _l.attempts.append({"boundary": 1})]
         shim.arm(shim.n + k, exc)
         seg = sysrun.call_integrate(system, events=evs or None, callback=cbs, max_steps=2000)
+        if slog is not None and shim.fired:
+            tail = []
+            for a in slog.attempts:
+                tail = [] if "boundary" in a else tail + [a]
+            if len(tail) >= 2 and any("boundary" in a for a in slog.attempts):
+                rec.bump("faults_inside_a_retry_of_a_rejected_step")
         if not shim.fired:
             rec.violate("fault_not_reached", "invocation_order_not_deterministic", feats, k=k)
             continue
@@ -316,6 +337,11 @@ def run_case(spec):
                 sysrun.segment_invariants(rec, system, seg3, tf, f3, y0_copy=y0c, clock=not info["splitting"], step_tol=0.0 if info["explicit"] else tolu, clause_prefix="resume_")
                 tr = np.asarray(system.t)
                 yr = np.asarray(system.y)
+                # the first steps after the resume start from the last accepted row: nothing of the abandoned attempt may leak into them
+                if not cfg["rich"]:
+                    frhs = (lambda tt, yy, **k_: base.rhs(tt, yy)) if info["splitting"] else (lambda tt, yy, _p=Clocked(base), **k_: _p.rhs(tt, yy))
+                    sysrun.replay_steps(rec, info, frhs, tr, yr, range(max(0, n - 1), min(n + 1, len(tr) - 1)), f3, cfg["tol"] or 1e-6, (cfg["tol"] or 1e-6) * 1e-2,
+                                        base.lipschitz(), clause="resume_step_replay")
                 # (the library keeps the failure status sticky until reset(); the property fixes the status only at the failure)
                 # end state against the exact solution at the level of the reference run's own error
                 ref_err = float(np.max(np.abs(ref["y"][-1][:2] - np.asarray(base.ystar(float(ref["t"][-1])), dtype=np.float64))))
